@@ -309,6 +309,20 @@ def allfun_reorder_trace(tid, seed, n, order):
 
 
 # ======================= C14: declarations =======================
+def gap_level_trace(tid, seed):
+    """add_var(new name, level beyond the next bottom level): one call, last in its trace."""
+    rng = random.Random(seed)
+    names = ALL_NAMES[:6]
+    tr = Trace(tid, names, seed=seed, meta=dict(driver='decl_gap', seed=seed))
+    k = rng.randint(0, 3)
+    for nm in names[:k]:
+        tr.add_var(nm)
+    if k:
+        tr.var(names[0])
+    tr.add_var(names[k], k + rng.randint(1, 3))
+    return tr
+
+
 def decl_history(tid, seed, steps):
     rng = random.Random(seed)
     names = ALL_NAMES[:6]
